@@ -203,7 +203,7 @@ func (g G) refAddr(simple bool) string {
 		if simple {
 			return "local." + n
 		}
-		return "self" + Pick(g, []string{"", ".name", ".size", ".ami", ".disk", ".host"})
+		return "self" + Pick(g, []string{"", ".name", ".size", ".ami", ".disk", ".host", ".disk[0].gb", ".disk[1].path", ".meta.k", ".meta.flag", ".conn.host", ".tags[\"k\"]"})
 	case 7:
 		return "var." + n + Pick(g, []string{".k", "[0]", `["k"]`})
 	case 8:
@@ -254,7 +254,9 @@ func (g G) refExpr(simple bool) string {
 func (g G) refLiteral() string {
 	return Pick(g, []string{`"s"`, "1", "true", `["x", "y"]`, `{ k = "v", z = 1 }`, `{ k = { z = true } }`, `[{ k = 1 }]`, "[]", "{}",
 		// keys that are no identifiers: blanks, an escaped quote, multi-byte
-		`{ "say \"hi\"" = "v" }`, `{ "a b" = "v", k = "w" }`, `{ "é" = "v" }`})
+		`{ "say \"hi\"" = "v" }`, `{ "a b" = "v", k = "w" }`, `{ "é" = "v" }`,
+		// more than ten elements: [10] sorts before [2] as text
+		`["e0", "e1", "e2", "e3", "e4", "e5", "e6", "e7", "e8", "e9", "e10", "e11"]`})
 }
 
 func (g G) refConfig(root m.BodyM, paths []string, pi int, simple bool) string {
